@@ -40,6 +40,21 @@ func (p *Prog) FlatInl(fi *FuncInfo) *Flat {
 	return f
 }
 
+// FlatInlExcept is FlatInl that leaves calls of the given functions alone (the calls themselves are what a rule
+// looks for).
+func (p *Prog) FlatInlExcept(fi *FuncInfo, except ...string) *Flat {
+	f := p.FlatOf(fi)
+	if f == nil {
+		return nil
+	}
+	f.noInline = map[string]bool{}
+	for _, k := range except {
+		f.noInline[k] = true
+	}
+	f.inline(map[string]bool{fi.Key: true}, inlineDepth)
+	return f
+}
+
 // NewFlatInl is NewFlat followed by inlining (for function literal bodies); owner is the enclosing function.
 func (p *Prog) NewFlatInl(owner *FuncInfo, body *ast.BlockStmt) *Flat {
 	f := p.NewFlat(owner.Pkg, body)
@@ -152,7 +167,7 @@ func (f *Flat) inline(stack map[string]bool, depth int) {
 		if callee == nil || callee.Pkg != f.Pkg || callee.Sig() == nil || callee.Sig().Variadic() {
 			continue
 		}
-		if strings.Contains(base+ch, callee.Key+">") {
+		if strings.Contains(base+ch, callee.Key+">") || f.noInline[callee.Key] {
 			continue
 		}
 		body := callee.body()
